@@ -18,7 +18,7 @@ from .interp import (
 from .values import (
     set_term, ViewList,
     SV, SInt, SBool, SReal, SBytes, SStr, SSeq, SEnum, SOpaque, SObj, SymRecDict, Unsupported,
-    Int, Bool, Real, Bytes, ByteArray, Str, ListOf, TupleOf, EnumOf, sort_of, has_sym, ISEQ, Sort,
+    Int, Bool, Real, Bytes, ByteArray, Str, ListOf, TupleOf, EnumOf, sort_of, has_sym, ISEQ, Sort, SArr,
 )
 
 
@@ -75,6 +75,8 @@ def snapshot(v, depth=0):
         return SBytes(v.term, v.mutable)
     if isinstance(v, SSeq):
         return SSeq(v.term, v.elem, v.mutable)
+    if isinstance(v, SArr):
+        return SArr(v.term, v.isort, v.vsort)
     if depth > 3:
         return v
     if isinstance(v, list):
@@ -671,6 +673,28 @@ class Env:
                 r = eval_clause(it, cond, ns2)
                 ctx.assume(ops.truth_term(r))
             raise RaiseEx(exc)
+        selfobj = ns.get("self")
+        if isinstance(selfobj, SObj):
+            ns["old"] = ObjSnapshot(selfobj)
+        ghost_at_call = {k: snapshot(v) for k, v in ctx.ghost.items() if isinstance(k, str) and k.isidentifier()}
+        # frame: the callee may change exactly what its contract lists under `modifies`
+        for m in getattr(con, "modifies", []) or []:
+            if m.startswith("self."):
+                fld = m[5:]
+                cur = selfobj.fields.get(fld)
+                try:
+                    selfobj.fields[fld] = it.fresh(sort_of(cur), "m_" + fld)
+                except Unsupported:
+                    selfobj.fields[fld] = Havocked(f"self.{fld}")
+            elif m.startswith("ghost."):
+                gk = m[6:]
+                cur = ctx.ghost.get(gk)
+                if isinstance(cur, (SBytes, SSeq, SArr)):
+                    cur.term = ctx.fresh("m_ghost_" + gk, cur.term.sort())
+                else:
+                    raise Unsupported(f"modifies {m}: unsupported ghost value")
+            else:
+                raise Unsupported(f"modifies clause {m}")
         ret = getattr(con, "returns", None)
         if ret is None:
             result = None
@@ -682,6 +706,12 @@ class Env:
         ns2["result"] = result
         for k in list(ns):
             ns2[k + "__post"] = ns[k]
+        for gk, gv in ctx.ghost.items():
+            if isinstance(gk, str) and gk.isidentifier() and gk not in ns2:
+                ns2[gk] = gv
+        for gk, gv in ghost_at_call.items():
+            ns2.setdefault(gk + "__old", gv)
+        ns2.setdefault("trace", [])
         # normal return excludes the `iff`-style exceptional conditions
         for cls, cond in con.raises.items():
             if getattr(con, "raises_exact", False) and callable(cond):
@@ -762,6 +792,8 @@ class Env:
             for gk, gv in ctx.ghost.items():
                 if isinstance(gk, str) and gk not in ns and gk.isidentifier():
                     ns[gk] = gv
+            for gk, gv in getattr(it, "ghost_old", {}).items():
+                ns.setdefault(gk + "__old", gv)
             ns["trace"] = ctx.trace
             if getattr(it, "old_self", None) is not None:
                 ns["old"] = it.old_self
@@ -806,8 +838,15 @@ class Env:
                     continue
                 cur = selfobj.fields[fld]
                 srt = inv.vars.get("self." + fld)
+                if srt is not None and not isinstance(srt, Sort):
+                    selfobj.fields[fld] = srt(it)
+                    continue
                 if srt is None:
                     if isinstance(cur, (list, dict, set, SObj, StubObj, SymRecDict)) or cur is None:
+                        if fld not in ms.self_fields:
+                            # only changed inside a callee used by contract: unknown afterwards
+                            selfobj.fields[fld] = Havocked(f"self.{fld}")
+                            continue
                         raise Unsupported(f"loop {ordinal}: cannot havoc self.{fld} ({type(cur).__name__}); declare sort 'self.{fld}'")
                     srt = sort_of(cur)
                 new = it.fresh(srt, f"h_self_{fld}")
@@ -818,11 +857,11 @@ class Env:
         ghost_havoc = [k[6:] for k in inv.vars if k.startswith("ghost.")]
         for gk in ghost_havoc:
             cur = ctx.ghost.get(gk)
-            if isinstance(cur, (SBytes, SSeq)):
+            if isinstance(cur, (SBytes, SSeq, SArr)):
                 cur.term = ctx.fresh("h_ghost_" + gk, cur.term.sort())
             elif cur is not None:
                 ctx.ghost[gk] = it.fresh(inv.vars["ghost." + gk], "h_ghost_" + gk)
-        ghost_head = {k: (v.term if isinstance(v, (SBytes, SSeq)) else v) for k, v in ctx.ghost.items() if isinstance(k, str)}
+        ghost_head = {k: (v.term if isinstance(v, (SBytes, SSeq, SArr)) else v) for k, v in ctx.ghost.items() if isinstance(k, str)}
         if ms.has_yield:
             y = ctx.ghost.get("yielded")
             if not isinstance(y, SSeq):
@@ -902,8 +941,8 @@ class Env:
             if not isinstance(gk, str) or gk in ghost_havoc or gk in ("yielded", "n_yields", "trace", idx_name):
                 continue
             hv = ghost_head.get(gk)
-            cur = gv.term if isinstance(gv, (SBytes, SSeq)) else gv
-            if isinstance(gv, (SBytes, SSeq)):
+            cur = gv.term if isinstance(gv, (SBytes, SSeq, SArr)) else gv
+            if isinstance(gv, (SBytes, SSeq, SArr)):
                 if hv is None or not hv.eq(cur):
                     raise Unsupported(f"loop {ordinal}: ghost {gk} changed but is not declared (vars['ghost.{gk}'])")
         for f in inv.inv:
@@ -929,6 +968,11 @@ class Env:
             else:
                 cands = [a] if a is not None else []
             for a in cands:
+                mc = self.modular.get(a) if isinstance(a, types.FunctionType) else None
+                if mc is not None:
+                    # a callee used by contract: its frame is what the contract lists
+                    out |= {m[5:] for m in (getattr(mc, "modifies", []) or []) if m.startswith("self.")}
+                    continue
                 if isinstance(a, types.FunctionType) and is_repo_function(a):
                     n, *_ = function_ast(a)
                     sn = n.args.args[0].arg if n.args.args else "self"
@@ -945,6 +989,16 @@ class Env:
         if isinstance(iterable, StubObj) and hasattr(iterable, "g_init"):
             return iterable
         raise Unsupported(f"for-loop with invariant over {type(iterable).__name__}")
+
+
+class Havocked(StubObj):
+    """placeholder for a value the contract says nothing about: any use makes the function undecided"""
+
+    def __init__(self, what):
+        self.what = what
+
+    def sym_getattr(self, it, name):
+        raise Unsupported(f"use of {self.what}, which a callee's contract leaves unspecified")
 
 
 class SeqView(StubObj):
